@@ -60,6 +60,82 @@ class Machine:
     def nontrivial(self, result) -> bool:
         return True
 
+    def level_for(self, prop):
+        return self.level
+
+    def reach_floor(self, merged, prop, tier):
+        return None
+
+    # -- fault aiming ----------------------------------------------------------------------
+    @staticmethod
+    def aim_fault(s, op_i, counts, kind, out_hint=None):
+        """Choose a position for one fault of `kind` inside op `op_i`, from the event list the same
+        operation produced in the fault-free pass.  Returns a fault dict or None."""
+        import errno as _errno
+
+        c = counts.get(op_i) or counts.get(str(op_i))
+        if not c:
+            return None
+        ev = c.get("ev", [])
+        if kind == "crash":
+            n = c.get("any", 0)
+            if n <= 0:
+                return None
+            targets = []
+            for j, e in enumerate(ev):
+                k = e[0]
+                if k in ("open_w", "open_a", "open_x"):
+                    targets += [j, j, min(j + 1, n - 1)]
+                elif k == "write":
+                    if j + 1 >= len(ev) or ev[j + 1][0] != "write":
+                        targets.append(j)
+            if targets and s.chance(0.7):
+                at = s.choice(targets)
+            else:
+                at = s.below(n)
+            return {"op": op_i, "kind": "crash", "at": at, "torn": s.choice([0.0, 0.3, 0.5, 0.9, 1.0])}
+        if kind == "enospc":
+            total = sum(e[2] for e in ev if e[0] == "write")
+            if total <= 0:
+                return None
+            return {"op": op_i, "kind": "enospc", "after_bytes": s.below(total)}
+        if kind in ("eio_read", "short_read"):
+            n = c.get("read", 0)
+            if n <= 0:
+                return None
+            f = {"op": op_i, "kind": kind, "at": s.below(n)}
+            if kind == "short_read":
+                f["len"] = s.choice([1, 2, 7])
+            return f
+        if kind == "short_write":
+            n = c.get("write", 0)
+            if n <= 0:
+                return None
+            return {"op": op_i, "kind": kind, "at": s.below(n), "len": s.choice([1, 2, 7])}
+        if kind == "open_fail":
+            n = c.get("open", 0)
+            if n <= 0:
+                return None
+            return {"op": op_i, "kind": kind, "at": s.below(n),
+                    "errno": s.choice([_errno.ENOENT, _errno.EACCES, _errno.EMFILE])}
+        if kind == "stat_fail":
+            n = c.get("stat", 0)
+            if n <= 0:
+                return None
+            return {"op": op_i, "kind": kind, "at": s.below(n), "errno": s.choice([_errno.ENOENT, _errno.EACCES])}
+        return None
+
+    @staticmethod
+    def note(model, o):
+        """Record an Outcome in the model fields the runner reads."""
+        model["_last_outcome"] = o.cls
+        c = dict(o.counts)
+        c["ev"] = [(e[0], e[1], e[3]) for e in o.events[:3000]]
+        model["_last_counts"] = c
+        model["_last_fired"] = tuple(f[0] for f in o.fired)
+        if o.fired:
+            model["_nontrivial"] = True
+
     def coverage_extra(self, merged) -> dict:
         return {}
 
